@@ -52,7 +52,10 @@ def pool():
             # pending substitutions whose plug mentions the substituted variable itself
             P.ESubst(P.MetaVar(1), P.EVar(0), P.App(P.Symbol('f'), P.EVar(0))), P.SSubst(P.MetaVar(1), P.SVar(0), P.App(P.Symbol('f'), P.SVar(0))),
             # a metavariable whose only constraint is a list of application-context holes
-            P.MetaVar(3, app_ctx_holes=(P.EVar(2),))]
+            P.MetaVar(3, app_ctx_holes=(P.EVar(2),)),
+            # a notation that binds x0 around its argument; a pending set-variable substitution (as plug under an ESubst)
+            __import__('proof_generation.proofs.substitution', fromlist=['forall']).forall(0)(P.App(P.Symbol('f'), P.EVar(0))),
+            P.SSubst(P.MetaVar(1), P.SVar(0), P.Symbol('a'))]
 
 
 LEMMAS = [('imp_refl', 1), ('bot_elim', 1), ('dneg_intro', 1), ('absurd', 2), ('peirce_bot', 1), ('and_l_imp', 2),
@@ -453,6 +456,10 @@ def main(argv=None) -> int:
                 for x in (0, 1):
                     l1.append(('gen', ('inst', d, ((k, i),)), x))
                     l1.append(('gen', ('dinst', d, ((k, i),)), x))
+    # the Quantifier axiom (its body carries a pending substitution) instantiated with binder notation / pending substitutions
+    for k in ('inst', 'dinst'):
+        for i in (22, 23, 19, 20, 9, 12, 5):
+            l1.append((k, ('exists_quantifier',), ((0, i),)))
     for i in (19, 20, 9, 10):
         for x in (0, 1):
             l1.append(('gen', ('lemma', 'imp_refl', (i,)), x))     # the consequent IS the pending substitution
